@@ -45,6 +45,19 @@ def build_jobs(t: str, sd: int):
                      "lens": (0, 1, 3) if t == "quick" else (0, 1, 2, 3, 8)}
                 j.update(opts)
                 jobs.append(j)
+                if mode == "A" and v == (6 if t == "quick" else v) and v >= 3 and name.startswith(("op:", "env:")):
+                    # the same program with assembled constants (the compiler reads its own literals back)
+                    jobs.append(dict(j, id=j["id"] + "/asm", assemble=True))
+    # literals with non-ASCII and escaped characters, plain and assembled
+    from ..recipe.gen import prog as _prog
+    for v in ((6, 10) if t == "quick" else range(3, 11)):
+        for ti, text in enumerate(("caf\u00e9", "\u00ff\u0080", "q\"b\\s\n", "\u6f22\U0001F600", "a//b;c")):
+            rec = _prog("A", ("Return", ("Bin", "Eq", ("Un", "Len", ("BytesStr", text)), ("Un", "Len", ("AppArg", 0)))))
+            rec2 = _prog("A", ("Return", ("Bin", "BytesEq", ("BytesStr", text), ("AppArg", 0)))) if v >= 4 else rec
+            for asm in (False, True):
+                for k, r in enumerate((rec, rec2)):
+                    jobs.append({"id": "lit:str%d:%d@v%dA%s" % (ti, k, v, "/asm" if asm else ""), "family": "lit", "rec": to_json(r), "version": v, "mode": "A",
+                                 "loop_k": loop_k, "call_depth": 3, "lens": tuple(sorted({0, len(text.encode("utf-8")), len(text.encode("utf-8")) + 1})), "assemble": asm})
     # a few sample queries for the evidence
     for j in jobs[:: max(1, len(jobs) // 5)]:
         j["want_sample"] = True
